@@ -60,6 +60,12 @@ pub fn io_kind(k: io::ErrorKind) -> &'static str {
         InvalidData => "InvalidData",
         ConnectionAborted => "ConnectionAborted",
         NotConnected => "NotConnected",
+        Interrupted => "Interrupted",
+        PermissionDenied => "PermissionDenied",
+        ConnectionRefused => "ConnectionRefused",
+        InvalidInput => "InvalidInput",
+        NotFound => "NotFound",
+        OutOfMemory => "OutOfMemory",
         _ => "Unmodelled",
     }
 }
@@ -77,6 +83,12 @@ pub fn io_kind_of(name: &str) -> Option<io::ErrorKind> {
         "InvalidData" => InvalidData,
         "ConnectionAborted" => ConnectionAborted,
         "NotConnected" => NotConnected,
+        "Interrupted" => Interrupted,
+        "PermissionDenied" => PermissionDenied,
+        "ConnectionRefused" => ConnectionRefused,
+        "InvalidInput" => InvalidInput,
+        "NotFound" => NotFound,
+        "OutOfMemory" => OutOfMemory,
         _ => return None,
     })
 }
